@@ -220,18 +220,31 @@ impl<F: FixedChannelRegion> RegionHandler for FixedChannelPlan<F> {
                 // or ChannelMask in the LinkADRReq in Data Frame.
                 // If it has not been reset yet, we continue to use the bias for the data frames.
                 // We hope to acquire ChannelMask via LinkADRReq.
-                if self.join_channels.has_bias_and_not_exhausted() {
+                let biased = if self.join_channels.has_bias_and_not_exhausted() {
                     let channel = self.join_channels.get_next_channel(rng);
                     let dr = if channel < 64 {
                         DR::_0
                     } else {
                         F::JOIN_DR_500KHZ
                     };
-                    (dr, channel)
+                    Some((dr, channel))
                 // Alternatively, we will ask JoinChannel logic to determine a channel from the
                 // subband that  the join succeeded on.
-                } else if let Some(channel) = self.join_channels.first_data_channel(rng) {
-                    (datarate, channel)
+                } else {
+                    self.join_channels.first_data_channel(rng).map(|channel| (datarate, channel))
+                };
+                // The join-bias heuristics know neither the channel mask nor the configured
+                // data rate: take their choice only if that channel is enabled and its
+                // bandwidth is the one the data rate uses.
+                let biased = biased.filter(|(dr, channel)| {
+                    let wide = F::datarates()[*dr as usize]
+                        .as_ref()
+                        .is_some_and(|d| d.bandwidth == Bandwidth::_500KHz);
+                    self.channel_mask.is_enabled((*channel).into()).unwrap()
+                        && wide == (*channel >= 64)
+                });
+                if let Some(choice) = biased {
+                    choice
                 } else {
                     // For the data frame, the datarate impacts which channel sets we can choose
                     // from. If the datarate bandwidth is 500 kHz, we must use
